@@ -912,6 +912,26 @@ impl World {
                     if let Some(d) = self.only_named_attribute_replaced(step, &pre_raw, &post_raw) {
                         fails.push(Fail::new("C13", "effect", format!("after {}: {}", step.op_name(), d)));
                     }
+                    // an attribute call that does not name a namespace declaration leaves the declarations alone
+                    let plain_attr_call = match &step.op {
+                        Op::SetAttribute { name, .. } | Op::RemoveAttribute { name, .. } | Op::MapRemoveNamedItem { name, .. } => !name.starts_with("xmlns"),
+                        Op::SetAttributeNode { .. } | Op::MapSetNamedItem { .. } => !rep.probes.contains(&"namespace_declaration_attached_as_attribute_node"),
+                        _ => false,
+                    };
+                    if plain_attr_call && !tree_broken {
+                        for i in 0..pre_ser.len().min(post_ser.len()) {
+                            if let (Some(a), Some(b)) = (&pre_ser[i], &post_ser[i]) {
+                                if b.matches(" xmlns").count() < a.matches(" xmlns").count() {
+                                    fails.push(Fail::new(
+                                        "C13",
+                                        "effect",
+                                        format!("after {}: a namespace declaration disappeared from document {} ({:?} -> {:?})", step.op_name(), i, a, b),
+                                    ));
+                                    break;
+                                }
+                            }
+                        }
+                    }
                     if let Some(d) = oracle::compare(&post_raw, &self.model.expect_all()) {
                         fails.push(Fail::new("C13", "effect", format!("after {}: {}", step.op_name(), d)));
                         if chardata {
@@ -1197,7 +1217,10 @@ impl World {
                     rep.probes.push("attribute_added_after_children");
                 }
                 // identity of the attribute node is adopted (plan.adopt = [el]); the value is judged below
-                let judged = !value.contains('&') && !plan.any_err;
+                // DOM Level 1: the value is a plain string, "not parsed as it is being set"; a refusal of
+                // markup-significant characters is admitted (C15), a *successful* call must store the string
+                let judged = true;
+                let _ = plan.any_err;
                 if judged {
                     let local = local_of(name).to_string();
                     let e_key = self.model.key(e);
